@@ -143,8 +143,14 @@ package schema
 //@   loop 1 invariant wf(l) && pending(l) == 0 && l.pos >= old(l.pos) && sent(l.items) == old(sent(l.items)) && recvd(l.items) == old(recvd(l.items))
 //@   loop 1 decreases len(l.input) - l.pos
 
+// C10 (comments are a spelling the grammar allows): a block comment ends at the first "*/" the
+// scanner stands on. Two clauses carry it: the scanner never steps over a position where the rest
+// of the input begins with the terminator (call-site clause on next), and it closes the comment
+// only directly behind one.
 //@ func lexBlockComment
 //@   props C12
+//@   callsite (*lexer).next requires[C10] never-steps-over-a-terminator: !(l.pos + 2 <= len(l.input) && l.input[l.pos] == 42 && l.input[l.pos+1] == 47)
+//@   callsite (*lexer).emit requires[C10] closes-directly-behind-a-terminator: l.pos >= 2 && l.pos <= len(l.input) && l.input[l.pos-2] == 42 && l.input[l.pos-1] == 47
 //@   like functype::schema.stateFn
 //@   loop 1 invariant wf(l) && pending(l) == 0 && l.pos >= old(l.pos) && sent(l.items) == old(sent(l.items)) && recvd(l.items) == old(recvd(l.items)) && (r == eof ==> l.pos >= len(l.input)) && r >= -1
 //@   loop 1 decreases 2 * (len(l.input) - l.pos) + (r == eof ? 0 : 1)
